@@ -27,7 +27,9 @@ check("C03", "TLC: laws as ASSUMEs over the full finite domain + table replay + 
 
 EVAL_NOTE = ("Trusted: TLC; the renderer (abstract tree -> string with every composite operand bracketed) and the projection of real "
              "result objects; bounded: expressions up to the stated number of leaves over 2 RC / 1-2 hint / 2-3 FC keys with repetition, "
-             "plus seeded random expressions up to 25 leaves through trace validation.")
+             "plus seeded random expressions up to 25 leaves through trace validation. Trace validation has two levels: a run whose recorded callbacks "
+             "the machine does not reproduce (lazy or shared evaluation, other callback structure) is evaluated again and decided by TLC on its result "
+             "(EvalResultTrace.tla); only a wrong result is a violation.")
 check("C04", "TLC model checking of Eval.tla (stack machine = recursive semantics) + replay of every enumerated program on the real "
       "evaluator + TLC trace validation of recorded transformer callbacks",
       "TLC proves within the bound that the callback-level stack machine of Eval.tla equals the documented compositional semantics Den "
@@ -36,7 +38,9 @@ check("C04", "TLC model checking of Eval.tla (stack machine = recursive semantic
       "fulfilled, conditional); every callback of the real RequirementConstraintTransformer on unit-test literals and seeded random "
       "expressions (<=25 leaves) is validated by TLC against the machine (EvalTrace.tla); so is every transformer run recorded while the "
       "repository's own test suite executes (pytest plugin), and the evaluated sub-expressions of tlc -simulate behaviours up to 8 leaves are "
-      "replayed; abstract keys are mapped by seed to boundary key numbers (499, 500, 900, 901, 999, 2000, 2499).", EVAL_NOTE, "DESIGN.md 3.4, 5/C04")
+      "replayed; abstract keys are mapped by seed to boundary key numbers (499, 500, 900, 901, 999, 2000, 2499); end to end: programs written with "
+      "packages are resolved (Resolve.tla's substitution) and evaluated as AHB expressions; the evaluatable data object is updated in place between "
+      "evaluations and the same tree object is evaluated twice.", EVAL_NOTE, "DESIGN.md 3.4, 5/C04")
 check("C05", "TLC model checking of the four metamorphic laws on Eval.tla + replay of every (original, transformed) pair on the real evaluator",
       "The laws (hint and-ed at any admissible position, FC attached to any RC-carrying sub-expression, operand swap, stability of "
       "definite outcomes under refinement of UNKNOWN) are TLC invariants over every valid expression in the bound at every position; "
@@ -65,7 +69,8 @@ check("C08", "TLC model checking of FcEval.tla (machine = Boolean value; message
       "callback-level machine computes the Boolean value and carries a message iff unfulfilled, given the precondition on leaves; every "
       "program is replayed through format_constraint_evaluation (two kinds of evaluators, including the default-message path) and "
       "evaluate_format_constraint_tree, with fully bracketed and precedence-reliant renderings; None and '' must be fulfilled; recorded "
-      "callbacks on random expressions <=20 leaves and the FC transformer runs of the repository's own test suite are validated by TLC.",
+      "callbacks on random expressions <=20 leaves and the FC transformer runs of the repository's own test suite are validated by TLC "
+      "(two levels: a run the machine does not reproduce is decided on its result by FcResultTrace.tla).",
       "Trusted: TLC, renderer, projection of messages to presence. Precondition read as in DESIGN 6.4.", "DESIGN.md 3.5, 5/C08")
 
 check("C01", "TLC model checking of CondParser.tla (operator-precedence machine = declarative split-at-lowest-operator reading) + replay of every "
@@ -111,7 +116,8 @@ check("C13", "TLC model checking of Validation.tla (documented recursive walk; E
       "the larger ones is rendered as a maus DeepAnwendungshandbuch with seeded expression shapes and validated by the real code with both flag "
       "values: reported nodes, their order, statuses and FILLED/EMPTY suffixes must equal the spec's list; an undetermined MUSS/prefix node must "
       "give NotImplementedError; validate_segment_level on single roots, data elements sharing one discriminator, and real results of random AHBs with "
-      "5-30 nodes decided by TLC (ValidationTrace.tla).", VAL_NOTE, "DESIGN.md 3.10, 5/C13")
+      "5-30 nodes and AHBs in which one node has 33/65/100 (thorough up to 257) children decided by TLC (ValidationTrace.tla); every third judged "
+      "run is preceded in the same task by a validation under another content evaluation result and flag value.", VAL_NOTE, "DESIGN.md 3.10, 5/C13")
 check("C14", "TLC model checking of SollEquivalence on Validation.tla + replay: flag runs against runs on the textually rewritten AHB (real code on both "
       "sides) and against the spec",
       "TLC proves Validate(t, TRUE) = Validate(t[SOLL:=MUSS], any flag) and Validate(t, FALSE) = Validate(t[SOLL:=KANN], any flag) for every tree in "
@@ -131,24 +137,30 @@ check("C17", "TLC model checking of PoolRules on Validation.tla + exhaustive rep
       "pool rules on the documented PoolResult; every one is validated by the real code through validate_deep_anwendungshandbuch, validate_segment "
       "and validate_data_element_valuepool: offered qualifiers in pool order, accepted iff offered, unexpected flagged and reported empty, forbidden "
       "iff nothing offered or the segment is forbidden; real results for random pools of 1-14 entries whose qualifiers are prefixes/substrings of "
-      "each other are decided by TLC (PoolTrace.tla).", VAL_NOTE, "DESIGN.md 3.10, 5/C17")
+      "each other, with qualifiers listed more than once and entry expressions behind per-AHB package definitions, are decided by TLC (PoolTrace.tla).", VAL_NOTE, "DESIGN.md 3.10, 5/C17")
 
 ASYNC_NOTE = ("Trusted: TLC; harness/plans.py (derivation of the series-parallel plan from the input = the model of where ahbicht gathers; checked against the "
               "code at run time: the set of awaitables the code starts must be the plan's, and the pending set must match at every step); the gate driver's "
-              "quiescence detection (event loop ready queue empty twice in a row). Scenarios are small by design; each is explored exhaustively by TLC.")
+              "quiescence detection (event loop ready queue empty twice in a row). Scenarios are small by design; each is explored exhaustively by TLC. "
+              "If the code's awaitables or pending sets differ from the plan's (a refactoring of the gathers) that is recorded, not reported: the schedules are "
+              "then explored on the real pending sets. Only an observation the plan does not derive for a key (foreign text / data) is a violation; an expected "
+              "observation that does not occur is not.")
 check("C12", "TLC model checking of Async.tla (all interleavings of the plan's awaitables; Assoc, OwnContext, NoLostOrDoubleStart) + deterministic gate "
       "driver replaying TLC's schedules into the real asyncio code, comparing pending sets at every step and the final result with the no-yield run",
-      "For 12 (thorough 17) scenarios covering requirement/format evaluation with repeated keys, multi-part AHB expressions, package expansion with repeated "
-      "and nested packages, resolver+evaluation, and is_valid_expression with context-local data, TLC explores every completion order of the derived "
+      "For 19 (thorough 23) scenarios covering requirement/format evaluation with repeated keys, multi-part AHB expressions, package expansion with repeated, "
+      "nested and right-deep packages, resolver+evaluation, is_valid_expression with context-local data and three concurrent evaluations whose values and hint "
+      "texts come from their own context-local data (each result must be the one the evaluation has alone), TLC explores every completion order of the derived "
       "plan and checks that positional gathering pairs every key with its own value and that every awaitable reads its own task's context; two "
       "sensitivity configurations (completion-order slots, shared context) must produce counterexamples. The real code is then forced through every "
       "interleaving (<=300, thorough <=3000; otherwise a transition cover plus random schedules): at each step the gated awaitables pending in "
       "the real event loop must be exactly the specification's Pending set (labels carry the key, occurrence and the data/text the evaluator saw), "
-      "and the result must equal the result when nothing yields.", ASYNC_NOTE, "DESIGN.md 3.9, 4.3, 5/C12")
+      "and the result must equal the result when nothing yields. Gathers wider than any batching limit (40 keys in one expression, 40 segments in one "
+      "group) are driven along 120 (thorough 400) seeded random completion orders without TLC (2^40 settled states).", ASYNC_NOTE, "DESIGN.md 3.9, 4.3, 5/C12")
 
 check("C15", "TLC model checking of Async.tla on the plan of a whole validation run (OwnContext: every FC awaitable reads the text set by its own data "
       "element, under all interleavings) + gate driver forcing validate_deep_anwendungshandbuch through TLC's schedules",
-      "For 3 (thorough 6) AHB scenarios with several free-text elements carrying different inputs and format constraints (same key in different elements, "
+      "For 8 (thorough 12) AHB scenarios with several free-text elements (the caller's context already holds a foreign text; elements without input; equal "
+      "time-condition expressions with different inputs) carrying different inputs and format constraints (same key in different elements, "
       "several modal marks, packages bringing in format constraints, several segments / groups / a value pool / a forbidden segment) TLC explores every "
       "completion order of all awaitables of the run; the real validation is driven through all of them (or a transition cover plus random "
       "schedules). The gated format-constraint evaluators put the text they were handed into their label, so the real pending set equals the "
@@ -171,8 +183,9 @@ check("C11", "TLC model checking of Cache.tla (heap with aliased list cells; Pur
       "child's list of the two most recently returned trees) and eviction, and proves that with deep copies every parse returns the pristine tree and "
       "the cache stays pristine, while shallow copy (lark Tree.copy), children-only copy and no-copy-on-miss each violate it. Every history ending in a "
       "parse is replayed on parse_condition_expression_to_tree and parse_ahb_expression_to_single_requirement_indicator_expressions (fresh strings per "
-      "history, eviction by flooding with cache_info().maxsize fillers for a seeded sample): each returned tree must be structurally identical to an "
-      "un-cached parse; evaluation results before/after edits are compared as well.",
+      "history, eviction by flooding with cache_info().maxsize fillers for a seeded sample) and on the condition parser reached through the resolver "
+      "(the embedded tree is edited): each returned tree must be structurally identical to an un-cached parse; evaluation results before/after edits "
+      "are compared as well.",
       "Trusted: TLC; the mapping of model cells to real lists (tree.children, tree.children[k].children); lark's un-cached parser as the reference for "
       "the pristine structure.", "DESIGN.md 3.8, 5/C11")
 
